@@ -722,4 +722,199 @@ theorem parse_durationIso (y m us : Int) (isDur : Bool) (lx : Str)
       simp [hneg, this, hr1]
 
 
+
+/-! ### what `duration_isoformat` writes is in the XSD lexical space -/
+
+theorem intField_hit {des : Char} (hd : des.isDigit = false) (n : Nat) (rest : Str) :
+    Spec.intField des (digits n ++ des :: rest) = some rest := by
+  have h1 : takeDigits (digits n ++ des :: rest) = digits n :=
+    takeDigits_append (allDigits_digits n) (by intro c r h; cases h; exact hd)
+  have h2 : dropDigits (digits n ++ des :: rest) = des :: rest :=
+    dropDigits_append (allDigits_digits n) (by intro c r h; cases h; exact hd)
+  have hne : (digits n).isEmpty = false := by
+    cases h : digits n with
+    | nil => exact absurd h (digits_ne_nil n)
+    | cons _ _ => rfl
+  simp [Spec.intField, h1, h2, hne]
+
+theorem intField_other {des c : Char} (hc : c.isDigit = false) (hne : c ≠ des) (n : Nat) (rest : Str) :
+    Spec.intField des (digits n ++ c :: rest) = none := by
+  have h2 : dropDigits (digits n ++ c :: rest) = c :: rest :=
+    dropDigits_append (allDigits_digits n) (by intro c' r h; cases h; exact hc)
+  simp [Spec.intField, h2, hne]
+
+theorem intField_nondigit {des c : Char} (hc : c.isDigit = false) (rest : Str) :
+    Spec.intField des (c :: rest) = none := by
+  simp [Spec.intField, takeDigits, dropDigits, hc]
+
+theorem intField_nil (des : Char) : Spec.intField des [] = none := by
+  simp [Spec.intField, dropDigits]
+
+/-- an optional field followed by something that cannot be mistaken for it -/
+theorem optField_seg {des : Char} (hd : des.isDigit = false) (on : Option Nat) (rest : Str)
+    (hrest : Spec.intField des rest = none) :
+    Spec.optField (Spec.intField des) (renderFields [(des, on)] ++ rest) = (rest, on.isSome) := by
+  cases on with
+  | none => simp [renderFields, Spec.optField, hrest]
+  | some n => simp [renderFields, Spec.optField, intField_hit hd]
+
+
+
+theorem intField_miss_render {des : Char} {fs : List (Char × Option Nat)} {rest : Str}
+    (hdes : ∀ p ∈ fs, p.1.isDigit = false ∧ p.1 ≠ des)
+    (hrest : Spec.intField des rest = none) : Spec.intField des (renderFields fs ++ rest) = none := by
+  induction fs with
+  | nil => simpa [renderFields] using hrest
+  | cons p r ih =>
+    obtain ⟨d', on⟩ := p
+    have hp := hdes (d', on) (by simp)
+    have ihr := ih (fun q hq => hdes q (by simp [hq]))
+    cases on with
+    | none => simpa [renderFields] using ihr
+    | some n =>
+      simp only [renderFields, List.append_assoc, List.cons_append]
+      exact intField_other hp.1 hp.2 n _
+
+theorem intField_timePart (des : Char) (h mi s us : Nat) : Spec.intField des (timePart h mi s us) = none := by
+  unfold timePart
+  split
+  · exact intField_nondigit (by decide) _
+  · exact intField_nil des
+
+theorem intField_secSeg {des : Char} (hd : des ≠ 'S') (hdp : des ≠ '.') (s us : Nat) :
+    Spec.intField des (secSeg s us) = none := by
+  by_cases hus : us = 0
+  · subst hus
+    by_cases hs : s = 0
+    · subst hs; simp [secSeg, intField_nil]
+    · have hb : (s != 0) = true := by simpa using hs
+      simp only [secSeg, hb, Bool.true_or, if_true, bne_self_eq_false, Bool.false_eq_true, if_false]
+      exact intField_other (by decide) (Ne.symm hd) s []
+  · obtain ⟨h1, _, _⟩ := secSeg_frac (s := s) hus
+    rw [h1]
+    exact intField_other (by decide) (Ne.symm hdp) s _
+
+theorem secField_secSeg (s us : Nat) :
+    Spec.optField Spec.secField (secSeg s us) = ([], (s != 0 || us != 0)) := by
+  by_cases hus : us = 0
+  · subst hus
+    by_cases hs : s = 0
+    · subst hs; simp [secSeg, Spec.optField, Spec.secField, takeDigits]
+    · have hb : (s != 0) = true := by simpa using hs
+      have h1 : takeDigits (digits s ++ ['S']) = digits s :=
+        takeDigits_append (allDigits_digits s) (by intro c r h; cases h; decide)
+      have h2 : dropDigits (digits s ++ ['S']) = ['S'] :=
+        dropDigits_append (allDigits_digits s) (by intro c r h; cases h; decide)
+      have hne : (digits s).isEmpty = false := by
+        cases h : digits s with
+        | nil => exact absurd h (digits_ne_nil s)
+        | cons _ _ => rfl
+      simp [secSeg, hb, Spec.optField, Spec.secField, h1, h2, hne]
+  · obtain ⟨h1, h2, h3⟩ := secSeg_frac (s := s) hus
+    have hb : (us != 0) = true := by simpa using hus
+    have t1 : takeDigits (digits s ++ '.' :: (rstrip0 (digitsW 6 us) ++ ['S'])) = digits s :=
+      takeDigits_append (allDigits_digits s) (by intro c r h; cases h; decide)
+    have t2 : dropDigits (digits s ++ '.' :: (rstrip0 (digitsW 6 us) ++ ['S'])) = '.' :: (rstrip0 (digitsW 6 us) ++ ['S']) :=
+      dropDigits_append (allDigits_digits s) (by intro c r h; cases h; decide)
+    have t3 : takeDigits (rstrip0 (digitsW 6 us) ++ ['S']) = rstrip0 (digitsW 6 us) :=
+      takeDigits_append h2 (by intro c r h; cases h; decide)
+    have t4 : dropDigits (rstrip0 (digitsW 6 us) ++ ['S']) = ['S'] :=
+      dropDigits_append h2 (by intro c r h; cases h; decide)
+    have hne : (digits s).isEmpty = false := by
+      cases h : digits s with
+      | nil => exact absurd h (digits_ne_nil s)
+      | cons _ _ => rfl
+    have hne2 : (rstrip0 (digitsW 6 us)).isEmpty = false := by
+      cases h : rstrip0 (digitsW 6 us) with
+      | nil => exact absurd h h3
+      | cons _ _ => rfl
+    rw [h1]
+    simp [Spec.optField, Spec.secField, t1, t2, t3, t4, hne, hne2, hb]
+
+
+theorem render4_split (oy om od : Option Nat) (tp : Str) :
+    renderFields [('Y', oy), ('M', om), ('W', none), ('D', od)] ++ tp =
+      renderFields [('Y', oy)] ++ (renderFields [('M', om)] ++ (renderFields [('D', od)] ++ tp)) := by
+  cases oy <;> cases om <;> cases od <;> simp [renderFields]
+
+theorem render2_split (oh omi : Option Nat) (tp : Str) :
+    renderFields [('H', oh), ('M', omi)] ++ tp = renderFields [('H', oh)] ++ (renderFields [('M', omi)] ++ tp) := by
+  cases oh <;> cases omi <;> simp [renderFields]
+
+theorem optN_isSome (n : Nat) : (optN n).isSome = (n != 0) := by
+  unfold optN; split <;> simp_all
+
+theorem durBodyLex_render (allowYM : Bool) (oy om od : Option Nat) (h mi s us : Nat)
+    (hne : renderFields [('Y', oy), ('M', om), ('W', none), ('D', od)] ++ timePart h mi s us ≠ [])
+    (hym : allowYM = true ∨ (oy = none ∧ om = none)) :
+    Spec.durBodyLex allowYM true
+      (renderFields [('Y', oy), ('M', om), ('W', none), ('D', od)] ++ timePart h mi s us) = true := by
+  have hpres : oy.isSome = true ∨ om.isSome = true ∨ od.isSome = true ∨ timePart h mi s us ≠ [] := by
+    cases oy <;> cases om <;> cases od <;> simp_all [renderFields]
+  rw [render4_split]
+  -- date fields
+  have e1 := optField_seg (des := 'Y') (by decide) oy
+    (renderFields [('M', om)] ++ (renderFields [('D', od)] ++ timePart h mi s us))
+    (by
+      rw [← List.append_assoc, ← renderFields_append]
+      exact intField_miss_render (by intro p hp; simp at hp; rcases hp with rfl | rfl <;> (dsimp only; decide))
+        (intField_timePart _ _ _ _ _))
+  have e2 := optField_seg (des := 'M') (by decide) om (renderFields [('D', od)] ++ timePart h mi s us)
+    (intField_miss_render (by intro p hp; simp at hp; rcases hp with rfl; dsimp only; decide)
+        (intField_timePart _ _ _ _ _))
+  have e3 := optField_seg (des := 'D') (by decide) od (timePart h mi s us) (intField_timePart _ _ _ _ _)
+  unfold Spec.durBodyLex
+  simp only [e1, e2, e3]
+  have hymOk : (allowYM || !(oy.isSome || om.isSome)) = true := by
+    rcases hym with h1 | ⟨h1, h2⟩
+    · simp [h1]
+    · simp [h1, h2]
+  cases htp : timePart h mi s us with
+  | nil =>
+    have : (oy.isSome || om.isSome || od.isSome) = true := by
+      rcases hpres with h1 | h1 | h1 | h1
+      · simp [h1]
+      · simp [h1]
+      · simp [h1]
+      · exact absurd htp h1
+    simp only [hymOk, this, Bool.true_or, Bool.and_self]
+  | cons c t =>
+    have hc : c = 'T' ∧ t = renderFields [('H', optN h), ('M', optN mi)] ++ secSeg s us ∧
+        (h != 0 || mi != 0 || s != 0 || us != 0) = true := by
+      unfold timePart at htp
+      split at htp
+      · rename_i hcond; cases htp; exact ⟨rfl, rfl, hcond⟩
+      · cases htp
+    obtain ⟨rfl, rfl, hcond⟩ := hc
+    rw [render2_split]
+    have f1 := optField_seg (des := 'H') (by decide) (optN h) (renderFields [('M', optN mi)] ++ secSeg s us)
+      (intField_miss_render (by intro p hp; simp at hp; rcases hp with rfl; dsimp only; decide)
+        (intField_secSeg (by decide) (by decide) s us))
+    have f2 := optField_seg (des := 'M') (by decide) (optN mi) (secSeg s us)
+      (intField_secSeg (by decide) (by decide) s us)
+    simp only [f1, f2, secField_secSeg, optN_isSome]
+    simp only [Bool.or_eq_true, bne_iff_ne, ne_eq] at hcond
+    simp only [hymOk, Bool.true_and, List.isEmpty_nil, Bool.or_eq_true, bne_iff_ne, ne_eq]
+    rcases hcond with ((h1 | h1) | h1) | h1
+    · exact Or.inl (Or.inl h1)
+    · exact Or.inl (Or.inr h1)
+    · exact Or.inr (Or.inl h1)
+    · exact Or.inr (Or.inr h1)
+
+
+/-- what `duration_isoformat` writes is an xsd:duration; without a year-month part (every timedelta) it is
+    an xsd:dayTimeDuration -/
+theorem durLex_durationIso (y m us : Int) (isDur : Bool) (lx : Str) (h : durationIso y m us isDur = some lx) :
+    Spec.durLex true true lx = true ∧ (dHasYM y m isDur = false → Spec.durLex false true lx = true) := by
+  have hs := durationIso_eq' y m us isDur lx h
+  have hne := rendered_ne_nil y m us isDur
+  have key : ∀ allowYM, (allowYM = true ∨ (dOy y m isDur = none ∧ dOm y m isDur = none)) →
+      Spec.durLex allowYM true lx = true := by
+    intro allowYM hym
+    rw [hs]
+    have hb := durBodyLex_render allowYM (dOy y m isDur) (dOm y m isDur) (dOd y m us isDur) _ _ _ _ hne hym
+    cases dMinus y m us isDur <;> simpa [Spec.durLex] using hb
+  refine ⟨key true (Or.inl rfl), fun hno => key false (Or.inr ?_)⟩
+  simp [dOy, dOm, ymFields, hno]
+
 end RV.C09
